@@ -71,6 +71,20 @@ Definition cmul (N c1 c2 : Z) : Z := (c1 * c2) mod (N * N).
 (* gift.Encrypt: CiphertextOp(Representative(m), IdentityNoise(r)) *)
 Definition enc (N m r : Z) : Z := cmul N (representative N m) (noise N r).
 
+(* A plaintext may be carried in a ring Z_M other than Z_N (NewPlaintextFromNat takes any
+   modulus; e.g. a curve scalar in Z_q).  PaillierGroup.Representative, hence the public-key
+   Representative / EncryptWithNonce, accepts it when M <= N and encodes its VALUE as
+   1 + m*N; the secret-key wrappers, Shift, PlaintextOp and PlaintextScalarOp require M = N
+   (group membership checks). *)
+Definition pk_representative_ring (N M m : Z) : option Z :=
+  if (0 <? M) && (M <=? N) then Some (representative N m) else None.
+Definition pk_enc_ring (N M m r : Z) : option Z :=
+  if (0 <? M) && (M <=? N) then Some (enc N m r) else None.
+Definition pt_add_ring (N M a b : Z) : option Z :=
+  if M =? N then Some (pt_add N a b) else None.
+Definition pt_scale_ring (N M a k : Z) : option Z :=
+  if M =? N then Some (pt_scale N a k) else None.
+
 (* the textbook formula c = (1+N)^m r^N mod N^2, evaluated literally *)
 Definition textbook (N m r : Z) : Z :=
   (modexp (1 + N) m (N * N) * modexp r N (N * N)) mod (N * N).
@@ -89,6 +103,8 @@ Definition cscale (N c k : Z) : option Z := modexpi c k (N * N).
 (* gift.Shift / gift.ReRandomise *)
 Definition shift (N c d : Z) : Z := cmul N c (representative N d).
 Definition rerandomise (N c r : Z) : Z := cmul N c (noise N r).
+Definition shift_ring (N M c d : Z) : option Z :=
+  if M =? N then Some (shift N c d) else None.
 
 (* nonces, Z*_N *)
 Definition nonce_mul (N r1 r2 : Z) : Z := (r1 * r2) mod N.
@@ -189,6 +205,10 @@ Definition sk_cmul (k : skey) (c1 c2 : Z) : Z := cmul (sk_N k) c1 c2.
 
 Definition sk_enc (k : skey) (m r : Z) : Z :=
   sk_cmul k (representative (sk_N k) m) (sk_noise k r).
+
+(* SecretKey.EncryptWithNonce refuses a plaintext that is not an element of Z_N *)
+Definition sk_enc_ring (k : skey) (M m r : Z) : option Z :=
+  if M =? sk_N k then Some (sk_enc k m r) else None.
 
 (* OddPrimeSquareFactors.ModExp: exponent reduced modulo phi(p^2) when the base is
    coprime to p, full exponent otherwise.  (As the code stands, `ep.Select(c, exp, &ep)`
